@@ -18,7 +18,7 @@ LEVEL = {
     "C09": "Deductive proof (Verus) of the real calculate_hmac_secret, make_hmac_secret, make_prf, get_prf, make_extensions, get_extensions and of both ceremonies: every PRF output is HMAC-SHA-256 (uninterpreted) keyed with the verification-gated secret iff the user was verified (performed UV at assertion, requested-and-checked UV at registration), enabled iff secrets were stored, nothing stored or output without the capability; client-side: pre-hashed inputs must be 32 bytes, per-credential inputs rejected at registration. Per-credential inputs take precedence over the default ones (select_salts proved over a HashMap find model); the salt is SHA-256 of 'WebAuthn PRF' || 0x00 || input (make_salt proved over the byte-chain model, and a bounded Kani harness on the real source file); registration-side client mapping (make_ctap_extension, prf before prfAlreadyHashed) proved; a malformed PRF request returns before the authenticator is reached (unit clt). Partial: the client's get_ctap_extension (authentication-side validation of per-credential keys) is not covered.",
     "C10": "Deductive proof (Verus), for every string and every well-formed sorted table: no lookup panics, public_suffix computes the publicsuffix.org rule walk over the table's trie (normal / wildcard / exception rules, fallback *), the binary search finds a label iff a sibling has it, results are label-aligned suffixes, eTLD+1 has exactly one more label, empty labels are rejected; well-formedness and sortedness of the shipped table are established by a verified checker compiled and run on the real constants. Partial: that the table encodes exactly the rules of public_suffix_list.dat is not covered.",
     "C11": "Deductive proof (Verus): is_passkey_discoverable equals the capability table, get_info reports rk truthfully, make_credential stores the user handle exactly when discoverable and refuses rk on a non-discoverable-only store, get_assertion returns a user handle exactly when the credential stores one.",
-    "C12": "Verus proof of the constructor / setters (AT / ED set exactly with their section, 65535 limit) and of the real decoder bodies from_slice / from_reader (37-byte guard, reserved bits, header bytes, big-endian counter, section presence iff flag, truncated / missing section rejected, credential id bytes) over trusted Cursor / ciborium models; complete Kani harness (all u8) for flag validity. Partial: the encoder to_vec is an iterator chain, checked only by a bounded Kani harness (thorough tier), and CBOR contents of key / extensions are not covered.",
+    "C12": "Verus proof of the real constructor / setters (AT / ED set exactly with their section, 65535 limit), of the real encoder (to_vec / into_iter produce exactly the layout of the property, AT or-ed in when the section is present), of the real decoder (37-byte guard, reserved bits, header bytes, big-endian counter, section presence iff flag, truncated / missing section rejected, well-formed input accepted) and of their composition (decoding the encoding returns the same hash, flags, counter, aaguid, credential id, key and extensions); complete Kani harness (all u8) for flag validity. All relative to trusted models of the iterator chain (rule R23), Cursor / Read and a deterministic ciborium / coset with two round-trip axioms; what CBOR those libraries emit is not covered.",
     "C13": "Status-byte clauses only: complete loop-free Kani harnesses over all 256 bytes, and Verus proof of the client's status mapping. CBOR clauses are not decidable.",
     "C15": "Deductive proof (Verus) of panic-freedom (index / slice / overflow / unwrap / unreachable) of the hand-written decoders of untrusted input: CTAPHID receiver for any packet length and sequence, U2F raw request decoder, public-suffix lookup, the authenticator-data decoder's own slicing and allocation (over reader models), sequence-visitor pre-allocation. Other decoders (CBOR, JSON, COSE, nom fingerprint parser) are outside both verifiers' reach and are listed as not covered.",
     "C16": "Deductive proof (Verus): header layouts, size check, the receiver's step relation for every 64-byte packet, and the reassembly and interleaving theorems for all payloads 0..7609 and all schedules (lemmas over handle_packet's own postcondition). The sender loop is checked by bounded Kani harnesses in the thorough tier.",
